@@ -91,3 +91,211 @@ def increasing(r, n, lo=1e-3, hi=1.0, log=False):
             x = out[-1] * (1 + 1e-3) + 1e-9
         out.append(x)
     return out
+
+
+# ---------------------------------------------------------------------------------------
+# Isotherm specifications (JSON-able) and builders through different construction routes
+# ---------------------------------------------------------------------------------------
+
+RESERVED_KEYS = {
+    "material", "adsorbate", "temperature", "m", "t", "a", "_material", "_adsorbate", "_temperature", "pressure_mode",
+    "pressure_unit", "loading_basis", "loading_unit", "material_basis", "material_unit", "temperature_unit", "data_raw",
+    "l_interpolator", "p_interpolator", "loading_key", "pressure_key", "other_keys", "pressure", "loading",
+    "isotherm_data", "branch", "model", "param_guess", "param_bounds", "optimization_params", "verbose", "plot_fit", "name",
+    "properties", "iso_type", "id", "iso_id"
+}
+
+DEFAULT_UNITS = {
+    "pressure_mode": "absolute",
+    "pressure_unit": "bar",
+    "loading_basis": "molar",
+    "loading_unit": "mmol",
+    "material_basis": "mass",
+    "material_unit": "g",
+    "temperature_unit": "K",
+}
+
+
+def random_units(r, relative_ok=True, fraction_ok=True):
+    pm, pu = r.choice(RU.PRESSURE_REPR if relative_ok else RU.PRESSURE_REPR[:8])
+    lreps = RU.LOADING_REPR if fraction_ok else RU.LOADING_REPR[:25]
+    lb, lu = r.choice(lreps)
+    mb, mu = r.choice(RU.MATERIAL_REPR)
+    return {
+        "pressure_mode": pm,
+        "pressure_unit": pu,
+        "loading_basis": lb,
+        "loading_unit": lu,
+        "material_basis": mb,
+        "material_unit": mu,
+        "temperature_unit": r.choice(RU.TEMPERATURE_REPR),
+    }
+
+
+def point_data(r, n, two_branches=None, decimals=6, pmax=1.0):
+    """Monotone adsorption branch (+ optional desorption branch going back down)."""
+    if two_branches is None:
+        two_branches = r.random() < 0.5 and n >= 4
+    n_ads = n if not two_branches else max(2, n - max(2, n // 3))
+    p_ads = increasing(r, n_ads, 1e-3 * pmax, pmax * 0.98, log=r.random() < 0.3)
+    l_ads = increasing(r, n_ads, 0.01, 20.0)
+    p, l, b = list(p_ads), list(l_ads), [0] * n_ads
+    if two_branches:
+        n_des = n - n_ads
+        p_des = sorted(increasing(r, n_des, 1e-3 * pmax, p_ads[-1] * 0.999), reverse=True)
+        l_des = sorted(increasing(r, n_des, l_ads[0], l_ads[-1] * 1.05), reverse=True)
+        p += p_des
+        l += l_des
+        b += [1] * n_des
+    p = [round(x, decimals) for x in p]
+    l = [round(x, decimals) for x in l]
+    # rounding may create ties: nudge to keep branches strictly monotone
+    for i in range(1, len(p)):
+        if b[i] == b[i - 1]:
+            step = 10.0**(-decimals)
+            if b[i] == 0 and p[i] <= p[i - 1]:
+                p[i] = round(p[i - 1] + step, decimals)
+            if b[i] == 1 and p[i] >= p[i - 1]:
+                p[i] = round(p[i - 1] - step, decimals)
+            if b[i] == 0 and l[i] <= l[i - 1]:
+                l[i] = round(l[i - 1] + step, decimals)
+            if b[i] == 1 and l[i] >= l[i - 1]:
+                l[i] = round(l[i - 1] - step, decimals)
+    return p, l, b
+
+
+TEXTS = ["plain", "with space", "ünïcödé-θ", "semi;colon", "a/b", "x" * 40, "MiXeD Case", "tab\tinside", "quote'inside"]
+
+
+def json_metadata(r, n=None, rich=True):
+    """JSON-representable metadata under non-reserved keys."""
+    n = r.randint(0, 6) if n is None else n
+    out = {}
+    pool = [
+        lambda: r.choice(TEXTS),
+        lambda: r.choice(["3", "3.0", "1e5", "True", "false", "None", "nan", "[1, 2]", " 12 ", ""]),
+        lambda: r.randint(-5, 1000),
+        lambda: round(r.uniform(-10, 10), r.randint(0, 8)),
+        lambda: r.choice([1e-300, 1e300, -0.0, 0.1 + 0.2, 1 / 3]),
+        lambda: r.random() < 0.5,
+        lambda: None,
+        lambda: [r.randint(0, 9) for _ in range(r.randint(0, 4))],
+        lambda: [r.choice(TEXTS), r.randint(0, 9), round(r.random(), 3)],
+        lambda: {"k%d" % i: r.randint(0, 9) for i in range(r.randint(1, 3))},
+    ]
+    if not rich:
+        pool = pool[:1] + pool[2:4] + pool[5:6]
+    for i in range(n):
+        key = r.choice(["user", "date", "lab", "comment", "project", "machine", "activation_temperature", "iso_ref", "note_%d" % i, "Ключ", "key with space"])
+        if key in RESERVED_KEYS:
+            continue
+        out[key] = r.choice(pool)()
+    return out
+
+
+def point_spec(r, n=None, units=None, two_branches=None, extras=None, meta=None, ads=None, T=None, material_props=None, decimals=6):
+    n = r.randint(3, 30) if n is None else n
+    units = dict(DEFAULT_UNITS) if units is None else dict(units)
+    pmax = 1.0 if units["pressure_mode"] == "relative" else 100.0 if units["pressure_mode"] == "relative%" else 1.0
+    p, l, b = point_data(r, n, two_branches, decimals, pmax=pmax)
+    if ads is None:
+        ads, T0 = r.choice(FIXED_CONTEXTS)
+        T = T0 if T is None else T
+    spec = {
+        "cls": "point",
+        "material": "verif-mat-%d" % r.randrange(10**6),
+        "adsorbate": ads,
+        "temperature": T if T is not None else 300.0,
+        "units": units,
+        "pressure": p,
+        "loading": l,
+        "branch": b,
+        "extra": {},
+        "meta": meta if meta is not None else {},
+    }
+    if spec["units"]["temperature_unit"] != "K":
+        spec["temperature"] = round(spec["temperature"] - 273.15, 6)
+    if material_props:
+        spec["material"] = dict(name=spec["material"], **material_props)
+    if extras is None:
+        extras = r.random() < 0.4
+    if extras:
+        spec["extra"]["enthalpy"] = [round(r.uniform(5, 60), 5) for _ in p]
+        if r.random() < 0.5:
+            spec["extra"]["Aux col"] = [round(r.uniform(-1, 1), 5) for _ in p]
+    return spec
+
+
+def _kw(spec):
+    import copy
+    kw = dict(spec["units"])
+    kw.update(copy.deepcopy(spec["meta"]))
+    kw["material"] = copy.deepcopy(spec["material"])
+    kw["adsorbate"] = spec["adsorbate"]
+    kw["temperature"] = spec["temperature"]
+    return kw
+
+
+POINT_ROUTES = ["lists", "ndarray", "tuples", "df", "df_offset", "df_perm", "df_str", "df_cols", "df_branchcol", "df_boolbranch"]
+
+
+def build_point(spec, route="df", branch="explicit"):
+    """Build a real PointIsotherm from a spec through one of the construction routes.
+
+    branch: 'explicit' (the spec's marks are passed), 'guess' (left to pyGAPS).
+    """
+    import numpy
+    import pandas
+    import pygaps
+    kw = _kw(spec)
+    p, l, b = spec["pressure"], spec["loading"], spec["branch"]
+    n = len(p)
+    if branch == "guess":
+        barg = "guess"
+    elif all(x == 0 for x in b):
+        barg = "ads" if route in ("lists", "df", "df_str") else [False] * n
+    elif all(x == 1 for x in b):
+        barg = "des" if route in ("lists", "df", "df_str") else [True] * n
+    else:
+        barg = [bool(x) for x in b] if route != "ndarray" else numpy.array(b, dtype=bool)
+    if route in ("lists", "ndarray", "tuples"):
+        if spec["extra"]:
+            raise ValueError("array routes cannot carry extra columns")
+        conv = {"lists": list, "ndarray": lambda x: numpy.array(x, dtype=float), "tuples": tuple}[route]
+        return pygaps.PointIsotherm(pressure=conv(p), loading=conv(l), branch=barg, **kw)
+    pk, lk = ("pressure", "loading") if route != "df_cols" else ("P [x]", "uptake")
+    cols = {pk: list(p), lk: list(l)}
+    for k, v in spec["extra"].items():
+        cols[k] = list(v)
+    if route == "df_cols":
+        # different column order as well
+        cols = {k: cols[k] for k in reversed(list(cols))}
+    df = pandas.DataFrame(cols)
+    if route == "df_offset":
+        df.index = range(5, 5 + n)
+    elif route == "df_perm":
+        idx = list(range(n))
+        random.Random(n).shuffle(idx)
+        df.index = idx
+    elif route == "df_str":
+        df.index = ["row%03d" % i for i in range(n)]
+    if route == "df_branchcol" and branch != "guess":
+        df["branch"] = [int(x) for x in b]
+        return pygaps.PointIsotherm(isotherm_data=df, pressure_key=pk, loading_key=lk, **kw)
+    if route == "df_boolbranch" and branch != "guess":
+        df["branch"] = [bool(x) for x in b]
+        return pygaps.PointIsotherm(isotherm_data=df, pressure_key=pk, loading_key=lk, **kw)
+    return pygaps.PointIsotherm(isotherm_data=df, pressure_key=pk, loading_key=lk, branch=barg, **kw)
+
+
+def build_base(spec):
+    from pygaps.core.baseisotherm import BaseIsotherm
+    return BaseIsotherm(**_kw(spec))
+
+
+def copy_point(iso):
+    """Reconstructed copy of a PointIsotherm (deepcopy fails on the CoolProp handle)."""
+    import copy
+    import pygaps
+    d = copy.deepcopy(iso.to_dict())
+    return pygaps.PointIsotherm(isotherm_data=iso.data_raw.copy(deep=True), pressure_key=iso.pressure_key, loading_key=iso.loading_key, **d)
